@@ -6,6 +6,7 @@ import CCT.Model.SignSteps
 import CCT.Model.RootSigning
 import CCT.Model.GpgSteps
 import CCT.Model.CliEdit
+import CCT.Model.Reasons
 import CCT.Ref.Crypto
 import Std.Data.HashMap
 /-!
@@ -312,6 +313,36 @@ def handle (memo : Memo) (line : String) : Memo × String :=
             | some (g, []) =>
               let memo' := match u with | .j uj => warm memo uj (gpgOf g) | _ => memo
               (memo', showRes (verifyDelegation (memoCrypto memo') n u t g))
+            | _ => (memo, "X bad-args")
+          | _ => (memo, "X bad-args")
+        | _ => (memo, "X bad-args")
+      | _ => (memo, "X bad-args")
+    | "vrootR" =>
+      -- every rejection class applicable to verify_root on these arguments (Model/Reasons.lean; C13.verifyRoot_reports_applicable)
+      match parseVal args with
+      | some (t, r1) => match parseVal r1 with
+        | some (u, []) =>
+          match t, u with
+          | .j tj, .j uj =>
+            let memo' := warm memo uj true
+            (memo', "R " ++ ",".intercalate ((verifyRootReasons (memoCrypto memo') tj uj).map (·.name)))
+          | _, _ => (memo, "R " ++ PyErr.arg.name)
+        | _ => (memo, "X bad-args")
+      | _ => (memo, "X bad-args")
+    | "vdelegR" =>
+      match parseVal args with
+      | some (n, r1) => match parseVal r1 with
+        | some (u, r2) => match parseVal r2 with
+          | some (t, r3) => match parseVal r3 with
+            | some (g, []) =>
+              match n, u, t, g with
+              | .j (.str nm), .j uj, .j tj, .j gj =>
+                match gpgFlag gj with
+                | some b =>
+                  let memo' := warm memo uj b
+                  (memo', "R " ++ ",".intercalate ((verifyDelegationReasons (memoCrypto memo') nm uj tj b).map (·.name)))
+                | none => (memo, "R " ++ PyErr.arg.name)
+              | _, _, _, _ => (memo, "R " ++ PyErr.arg.name)
             | _ => (memo, "X bad-args")
           | _ => (memo, "X bad-args")
         | _ => (memo, "X bad-args")
